@@ -17,6 +17,18 @@ func (e *Engine) inL(s *Term, lang string) *Term {
 	if s.Op == "ite" {
 		return Ite(s.Args[0], e.inL(s.Args[1], lang), e.inL(s.Args[2], lang))
 	}
+	// a concatenation with a conditional piece: split on the condition (bounded), so that constant cases fold
+	if s.Op == "str.++" {
+		for k, a := range s.Args {
+			if a.Op == "ite" && countIte(s) <= 4 {
+				mkWith := func(x *Term) *Term {
+					args := append(append(append([]*Term{}, s.Args[:k]...), x), s.Args[k+1:]...)
+					return Concat(args...)
+				}
+				return Ite(a.Args[0], e.inL(mkWith(a.Args[1]), lang), e.inL(mkWith(a.Args[2]), lang))
+			}
+		}
+	}
 	e.langs.Get(lang) // must exist
 	return App("inL:"+lang, SBool, s)
 }
@@ -462,4 +474,15 @@ func (e *Engine) renderCV(st *State) *PtrV {
 	}
 	e.trusted["one render = one shared templ.contextValue: every context that flows through a render carries the same *contextValue (getContext / InitializeContext are trusted with this contract)"] = true
 	return &PtrV{Nil: False, Obj: e.cvObj}
+}
+
+func countIte(t *Term) int {
+	n := 0
+	if t.Op == "ite" {
+		n++
+	}
+	for _, a := range t.Args {
+		n += countIte(a)
+	}
+	return n
 }
